@@ -381,48 +381,3 @@ func vc08GenCodec(r *vRand) vc08Case {
 	}
 	return vc08Case{Kind: kind, Type: typ, Tape: tape}
 }
-
-// exploratory: prints, per type and codec, how many generated values come back different (development aid)
-func vc08Explore(n int) {
-	r := newVRand(99)
-	stats := map[string][3]int{}
-	shown := map[string]int{}
-	for i := 0; i < n; i++ {
-		c := vc08GenCodec(r)
-		v, _, _ := vc08BuildValue(c.Type, c.Tape, nil)
-		in := "(ObsV " + vc08Val(v) + ")"
-		var obs string
-		var buf []byte
-		func() {
-			defer func() {
-				if e := recover(); e != nil {
-					obs = fmt.Sprint("PANIC ", e)
-				}
-			}()
-			if c.Kind == "js" {
-				obs, buf = vc08JSONCycle(v)
-			} else {
-				obs, buf = vc08MsgpackCycle(v)
-			}
-		}()
-		key := c.Kind + ":" + c.Type
-		s := stats[key]
-		s[0]++
-		if obs != in {
-			s[1]++
-			if shown[key] < 2 {
-				shown[key]++
-				fmt.Printf("EXPLORE %s\n  in  %s\n  out %s\n  wire %q\n", key, in, obs, buf)
-			}
-		}
-		stats[key] = s
-	}
-	keys := []string{}
-	for k := range stats {
-		keys = append(keys, k)
-	}
-	sort.Strings(keys)
-	for _, k := range keys {
-		fmt.Printf("EXPLORE-STAT %s total=%d differ=%d\n", k, stats[k][0], stats[k][1])
-	}
-}
